@@ -219,3 +219,28 @@ fn probe_smallvec_constprop() {
     assert!(r0 == 3 && r1 == 5);
     core::mem::forget(dq);
 }
+
+// @harness probe_ptr_in_heap
+// @props X
+// @tier off
+// @kind stretch
+// @timeout 600
+// @mem 8
+// @functions probe only
+// @bounds probe
+#[kani::proof]
+#[kani::unwind(20)]
+#[kani::stub(core::ptr::copy_nonoverlapping, crate::verif_support::copy_typed_loop)]
+fn probe_ptr_in_heap() {
+    let a = String::from("x");
+    let b = String::from("yy");
+    let (ia, ib): (u32, u32) = (3, 5);
+    let mut v: Vec<(&String, &u32)> = Vec::with_capacity(4);
+    v.push((&b, &ib));
+    v.push((&a, &ia));
+    let r0 = spin(*v[1].1 as u64);
+    let r1 = spin(v[0].0.len() as u64);
+    v.sort_by_key(|x| *x.1);
+    let r2 = spin(*v[1].1 as u64);
+    assert!(r0 == 3 && r1 == 2 && r2 == 5);
+}
